@@ -71,8 +71,9 @@ def gen_table(rng, n=None, time=None, nan=False, inf=False):
     if time is None:
         time = rng.random() < 0.5
     x = [rng.randrange(-12, 13) / 4.0 for _ in range(n)]
-    if rng.random() < 0.06:
-        # a (nearly) constant column of a value that is not exactly representable: sums of squares cancel badly
+    if rng.random() < 0.12:
+        # a (nearly) constant column of a value that is not exactly representable: sums of squares cancel badly, and a total
+        # from which everything has been subtracted again keeps a residue
         c = rng.choice([0.1, 0.3])
         x = [c for _ in range(n)]
     y = [rng.randrange(0, 6) for _ in range(n)]
@@ -84,6 +85,9 @@ def gen_table(rng, n=None, time=None, nan=False, inf=False):
         if rng.random() < 0.25:
             for i in range(min(n, rng.randrange(1, 3))):     # leading all-NaN run
                 x[i] = None
+        if rng.random() < 0.25:
+            for i in range(min(n, rng.randrange(1, 4))):     # trailing all-NaN run: the last windows hold no observation at all
+                x[n - 1 - i] = None
         if not any(v is None for v in x):
             x[rng.randrange(n)] = None
     if inf and rng.random() < 0.06:
@@ -100,6 +104,16 @@ def gen_table(rng, n=None, time=None, nan=False, inf=False):
         # resolution of the DatetimeIndex (pandas' default for these values is microseconds): with 's' the rows sit exactly
         # one index tick apart
         out['t_unit'] = rng.choice(['s', 's', 'ms', 'ns'])
+    if time and rng.random() < 0.25:
+        # rows a nanosecond or two after a whole second: a row can then sit exactly one tick inside a window's lower bound
+        sub, prev_s, lo = [], None, 0
+        for s_ in t:
+            lo = lo if s_ == prev_s else 0
+            lo = rng.choice([lo, lo, lo + 1]) if lo < 3 else lo
+            sub.append(lo)
+            prev_s = s_
+        out['t_sub'] = sub
+        out['t_unit'] = 'ns'
     if time and rng.random() < 0.4:
         out['ex_time'] = 'early'
     if rng.random() < 0.2:
@@ -110,7 +124,8 @@ def gen_table(rng, n=None, time=None, nan=False, inf=False):
 def table_df(tab):
     n = len(tab['y'])
     if tab.get('t') is not None:
-        idx = pd.DatetimeIndex([EPOCH + pd.Timedelta(seconds=int(s)) for s in tab['t']])
+        sub = tab.get('t_sub') or [0] * len(tab['t'])
+        idx = pd.DatetimeIndex([EPOCH + pd.Timedelta(seconds=int(s)) + pd.Timedelta(int(ns), 'ns') for s, ns in zip(tab['t'], sub)])
         if tab.get('t_unit'):
             idx = idx.as_unit(tab['t_unit'])
     else:
